@@ -148,7 +148,7 @@ def scan_hash():
                 iters.append((rel(p), enclosing_fn(src, m.start()), nm, re.sub(r'\s+', ' ', line)[:90]))
     return sorted(set(decls)), sorted(set(iters))
 
-AMBIENT_RX = re.compile(r'\b(std::env|env::var|env!|option_env!|SystemTime|Instant::|thread_local!|static\s+mut|lazy_static|OnceCell|OnceLock|RandomState|std::fs|File::|std::process|std::net|rand::|AtomicU|Mutex<|RefCell<|include_str!|include_bytes!|file!|line!|column!|Span::mixed_site|def_site)\b')
+AMBIENT_RX = re.compile(r'\b(std::env|env::var|env!|option_env!|SystemTime|Instant::|thread_local!|static\s+mut|lazy_static|OnceCell|OnceLock|RandomState|std::fs|File::|std::process|std::net|rand::|Atomic[A-Z]\w*|Mutex<|RwLock<|RefCell<|\bCell<|static\s+[A-Za-z_]\w*\s*:|LazyLock|LazyCell|include_str!|include_bytes!|file!|line!|column!|Span::mixed_site|def_site)\b')
 def scan_ambient():
     out = []
     for p in files():
